@@ -54,7 +54,8 @@ FieldsOf(np) == LET ps == IF np = 1 THEN {"T"} ELSE Params
                        <<[t |-> "compactassoc", p |-> "T"], [t |-> "assoc", p |-> "T"]>> }       \* the same generic type plain and compact
                 \cup (IF TwoFields THEN {<<f, g>> : f \in {[t |-> t, p |-> "T"] : t \in Templates}, g \in {[t |-> t, p |-> p] : t \in {"direct", "phantom", "assoc", "selfassoc", "skipNoInfoG", "vecassoc", "compactp", "compactassoc"}, p \in ps}} ELSE {})
 \* always-covered pairs (interactions of the attribute paths with lifetimes and with skipping)
-CorePairs == {{"custom", "lifetime"}, {"custom", "lifetime2"}, {"skip", "custom"}, {"skip", "enum"}, {"skip", "where"}, {"skip", "inline"}, {"skip", "lifetime"}, {"splitattr", "enum"}, {"splitattr", "tuple"}, {"splitattr", "custom"}}
+CorePairs == {{"custom", "lifetime"}, {"custom", "lifetime2"}, {"skip", "custom"}, {"skip", "enum"}, {"skip", "where"}, {"skip", "inline"}, {"skip", "lifetime"}, {"splitattr", "enum"}, {"splitattr", "tuple"}, {"splitattr", "custom"},
+              {"where", "custom"}, {"inline", "custom"}, {"const", "custom"}, {"default", "custom"}, {"enum", "custom"}}      \* bounds(..) replaces the GENERATED bounds only
 ModSets == {M \in SUBSET Modifiers : (Cardinality(M) <= (IF Pairwise THEN 2 ELSE 1) \/ M \in CorePairs) /\ ~({"lifetime", "lifetime2"} \subseteq M) /\ ~({"enum", "tuple"} \subseteq M)
                                       /\ ~({"const", "default"} \subseteq M)}
 Init == d \in {[np |-> np, fields |-> fs, mods |-> M] : np \in 1..2, fs \in FieldsOf(1) \cup FieldsOf(2), M \in ModSets}
